@@ -108,6 +108,10 @@ func runTerm(c *Ctx) {
 		}
 	}
 	c.Note("space (iv)", fmt.Sprintf("prefixes %q followed by every string of length <= 3 over the bytes %q", c03Prefixes, c03HighBytes))
+	for n := 1; n <= 4; n++ {
+		strSeqs(c08Blanks, n, func(p []string) { doStr(strings.Join(p, "")) })
+	}
+	c.Note("space (vi)", fmt.Sprintf("all strings of <= 4 symbols over the blanks and their look-alikes %q", c08Blanks))
 	// (iii) grammar-derived specs x argvs x every subset of env-backed options
 	type t3 struct {
 		leaves []string
